@@ -706,5 +706,574 @@ theorem apply_frame (ρ : Env) (β : Writes) (y : Name) (h : y ∉ β.map Prod.f
     rw [ih _ h.2]
     simp [Env.set, h.1]
 
+/-! ### alternatives other than the last one (`la = false`), on `earlyFree` patterns -/
+
+def notSeq : Pat → Bool
+  | .seq _ _ _ => false
+  | _ => true
+
+def noSeqL : List Pat → Bool
+  | [] => true
+  | p :: ps => notSeq p && noSeqL ps
+
+/-- in a non-last position a pattern that is not parenthesised behaves the same in every
+alternative -/
+theorem mPat_false_eq (F : FloatOps) (p : Pat) (a : Acc) (ρ : Env) (h : notSeq p = true) :
+    mPat F false p false a ρ = mPat F true p false a ρ := by
+  cases p <;> simp [mPat, fin, notSeq] at *
+
+theorem mPats_false_eq (F : FloatOps) : ∀ (ps : List Pat) (s : Src) (i : Int) (ρ : Env),
+    noSeqL ps = true → mPats F false ps s i false ρ = mPats F true ps s i false ρ
+  | [], _, _, _, _ => by simp [mPats]
+  | p :: ps, s, i, ρ, h => by
+    simp only [noSeqL, Bool.and_eq_true] at h
+    simp only [mPats, Bool.false_and]
+    rw [mPat_false_eq F p _ ρ h.1]
+    cases mPat F true p false (.elem s i) ρ <;> simp [mPats_false_eq F ps s (i + 1) _ h.2]
+
+theorem wf_notSeq (p : Pat) (hw : wf p = true) (h : isSeqNonEmpty p = false) : notSeq p = true := by
+  cases p with
+  | seq pre rest post =>
+    simp only [wf, Bool.and_eq_true, decide_eq_true_eq] at hw
+    simp only [isSeqNonEmpty, Bool.not_eq_false', Bool.and_eq_true, List.isEmpty_iff, Option.isNone_iff_eq_none] at h
+    obtain ⟨⟨rfl, rfl⟩, rfl⟩ := h
+    simp [restCount] at hw
+  | _ => rfl
+
+theorem earlyFreeL_false_noSeq : ∀ (ps : List Pat), wfL ps = true → earlyFreeL ps false = true →
+    noSeqL ps = true
+  | [], _, _ => rfl
+  | [p], hw, h => by
+    simp only [wfL, Bool.and_eq_true] at hw
+    simp only [earlyFreeL, Bool.false_or, Bool.and_eq_true, Bool.not_eq_true'] at h
+    simp [noSeqL, wf_notSeq p hw.1 h.2]
+  | p :: q :: ps, hw, h => by
+    simp only [wfL, Bool.and_eq_true] at hw
+    simp only [earlyFreeL, Bool.and_eq_true, Bool.not_eq_true'] at h
+    have ih := earlyFreeL_false_noSeq (q :: ps) (by simp [wfL, hw.2]) h.2
+    simp [noSeqL, wf_notSeq p hw.1 h.1.2] at ih ⊢
+    exact ih
+
+/-- success of a whole pattern in a non-last alternative = the jump to `match_end` -/
+def SpecN (F : FloatOps) (p : Pat) : Prop :=
+  ∀ (a : Acc) (ρ : Env) (v : Val), Reads a v → noRange v = true →
+    (∀ β, Decl F p v β → mPat F false p true a ρ = .done (ρ.apply β)) ∧
+    (∀ ρ', mPat F false p true a ρ = .done ρ' → ∃ β, Decl F p v β ∧ ρ' = ρ.apply β)
+
+def SpecNL (F : FloatOps) (ps : List Pat) : Prop :=
+  ∀ (c : Val) (i : Int) (ρ : Env) (ys : List Val), ys.length = ps.length →
+    (∀ j (h : j < ys.length), tempIndex c (i + (j : Int)) = .ok ys[j]) → noRangeL ys = true →
+    (∀ β, DeclAll F ps ys β → mPats F false ps (.tmp c) i true ρ = .done (ρ.apply β)) ∧
+    (∀ ρ', mPats F false ps (.tmp c) i true ρ = .done ρ' → ∃ β, DeclAll F ps ys β ∧ ρ' = ρ.apply β)
+
+theorem specN_lit (F : FloatOps) (l : Lit) : SpecN F (.lit l) := by
+  intro a ρ v hr _
+  simp only [mPat, hr.fetch, Decl, fin]
+  cases h : litEq F l v <;> simp [eq_comm]
+
+theorem specN_id (F : FloatOps) (x : Name) (ty : Option Ty) : SpecN F (.id x ty) := by
+  intro a ρ v hr _
+  simp only [mPat, hr.fetch, Decl, fin]
+  cases h : tyFail ty v <;> simp [eq_comm]
+
+theorem specN_wild (F : FloatOps) (ty : Option Ty) : SpecN F (.wild ty) := by
+  intro a ρ v hr _
+  cases ty with
+  | none => simp [mPat, Decl, fin, tyFail, eq_comm]
+  | some t =>
+    simp only [mPat, hr.fetch, Decl, fin, tyFail]
+    cases h : tyOk t v <;> simp [eq_comm]
+
+theorem specN_map (F : FloatOps) (es : List Ent) (ty : Option Ty) : SpecN F (.map es ty) := by
+  intro a ρ v hr _
+  have hm := mEnts_spec es v ρ
+  simp only [mPat, hr.container, Src.rd, Decl, fin]
+  by_cases h : tyFail ty v = true
+  · simp [h]
+  · have h' : tyFail ty v = false := by simpa using h
+    simp only [h', Bool.false_eq_true, if_false, true_and]
+    cases hr' : mEnts es (.tmp v) ρ with
+    | ok ρ1 =>
+      simp only [Bool.not_false, Bool.and_self, if_true, R.done.injEq]
+      constructor
+      · intro β hd
+        have := hm.1 β hd
+        rw [hr'] at this; cases this; rfl
+      · rintro ρ' rfl; exact hm.2.1 _ hr'
+    | done ρ1 => exact absurd hr' (hm.2.2 _)
+    | fail ρ1 =>
+      refine ⟨?_, by simp⟩
+      intro β hd
+      have := hm.1 β hd
+      rw [hr'] at this; cases this
+    | err e =>
+      refine ⟨?_, by simp⟩
+      intro β hd
+      have := hm.1 β hd
+      rw [hr'] at this; cases this
+
+theorem specNL_single (F : FloatOps) (p : Pat) (hp : SpecN F p) : SpecNL F [p] := by
+  intro c i ρ ys hlen hidx hnr
+  cases ys with
+  | nil => simp at hlen
+  | cons y ys' =>
+    have : ys' = [] := by simpa using hlen
+    subst this
+    have hy : Reads (.elem (.tmp c) i) y := by
+      have h0 := hidx 0 (by simp)
+      rw [List.getElem_cons_zero] at h0
+      exact Or.inr ⟨c, i, rfl, by simpa using h0⟩
+    simp only [noRangeL, Bool.and_eq_true] at hnr
+    have sp := hp (.elem (.tmp c) i) ρ y hy hnr.1
+    simp only [mPats, List.isEmpty_nil, Bool.and_self]
+    constructor
+    · intro β hd
+      simp only [DeclAll] at hd
+      obtain ⟨y0, ys0, β₁, β₂, heq, h1, ⟨_, rfl⟩, rfl⟩ := hd
+      simp only [List.cons.injEq] at heq
+      obtain ⟨rfl, _⟩ := heq
+      simp [sp.1 β₁ h1]
+    · intro ρ' h
+      cases hr : mPat F false p true (.elem (.tmp c) i) ρ with
+      | ok ρ1 => rw [hr] at h; simp [mPats] at h
+      | done ρ1 =>
+        rw [hr] at h; simp only [R.done.injEq] at h; subst h
+        obtain ⟨β, hd, rfl⟩ := sp.2 ρ1 hr
+        exact ⟨β, by simp only [DeclAll]; exact ⟨y, [], β, [], rfl, hd, ⟨rfl, rfl⟩, by simp⟩, rfl⟩
+      | fail ρ1 => rw [hr] at h; simp at h
+      | err e => rw [hr] at h; simp at h
+
+theorem specNL_cons (F : FloatOps) (p q : Pat) (ps : List Pat) (hn : notSeq p = true) (hp : Spec F p)
+    (hps : SpecNL F (q :: ps)) : SpecNL F (p :: q :: ps) := by
+  intro c i ρ ys hlen hidx hnr
+  cases ys with
+  | nil => simp at hlen
+  | cons y ys' =>
+    have hy : Reads (.elem (.tmp c) i) y := by
+      have h0 := hidx 0 (by simp)
+      rw [List.getElem_cons_zero] at h0
+      exact Or.inr ⟨c, i, rfl, by simpa using h0⟩
+    simp only [noRangeL, Bool.and_eq_true] at hnr
+    have hlen' : ys'.length = (q :: ps).length := by simpa using hlen
+    have hidx' : ∀ j (h : j < ys'.length), tempIndex c (i + 1 + (j : Int)) = .ok ys'[j] := by
+      intro j h
+      have := hidx (j + 1) (by simp; omega)
+      simp only [List.getElem_cons_succ] at this
+      rw [← this]; congr 1; push_cast; omega
+    have sp := hp false (.elem (.tmp c) i) ρ y hy hnr.1
+    have e : mPat F false p (true && (q :: ps).isEmpty) (.elem (.tmp c) i) ρ
+        = mPat F true p false (.elem (.tmp c) i) ρ := by
+      simpa using mPat_false_eq F p _ ρ hn
+    constructor
+    · intro β hd
+      simp only [DeclAll] at hd
+      obtain ⟨y0, ys0, β₁, β₂, heq, h1, h2, rfl⟩ := hd
+      simp only [List.cons.injEq] at heq
+      obtain ⟨rfl, rfl⟩ := heq
+      rw [mPats, e, sp.1 β₁ h1]
+      simp only
+      rw [(hps c (i + 1) (ρ.apply β₁) ys' hlen' hidx' hnr.2).1 β₂ (by simpa only [DeclAll] using h2), apply_append]
+    · intro ρ' h
+      rw [mPats, e] at h
+      cases hr : mPat F true p false (.elem (.tmp c) i) ρ with
+      | ok ρ1 =>
+        rw [hr] at h; simp only at h
+        obtain ⟨β₁, h1, rfl⟩ := sp.2.1 ρ1 hr
+        obtain ⟨β₂, h2, rfl⟩ := (hps c (i + 1) (ρ.apply β₁) ys' hlen' hidx' hnr.2).2 ρ' h
+        exact ⟨β₁ ++ β₂, by simp only [DeclAll]; exact ⟨y, ys', β₁, β₂, rfl, h1, by simpa only [DeclAll] using h2, rfl⟩,
+          by rw [apply_append]⟩
+      | done ρ1 => exact absurd hr (sp.2.2 _)
+      | fail ρ1 => rw [hr] at h; simp at h
+      | err e' => rw [hr] at h; simp at h
+
+theorem specN_exact (F : FloatOps) (pre : List Pat) (hpre : pre ≠ []) (hs : SpecNL F pre) :
+    SpecN F (.seq pre none []) := by
+  intro a ρ v hr hnr
+  rw [mPat_exact F false true pre a ρ (.tmp v) hpre (hr.container ρ)]
+  simp only [Src.rd, Decl]
+  cases hv : view v with
+  | none => simp [sizeCheck, view_none_size hv hnr]
+  | some w =>
+    obtain ⟨xs, sl⟩ := w
+    simp only [sizeCheck, view_size hv, Bool.false_eq_true, if_false]
+    have hidx : ∀ j (h : j < xs.length), tempIndex v ((0 : Int) + (j : Int)) = .ok xs[j] := by
+      intro j h; simpa using view_index hv j h
+    by_cases hl : xs.length = pre.length
+    · have sp := hs v 0 ρ xs hl hidx (view_noRange hv hnr)
+      simp only [hl, beq_self_eq_true]
+      refine ⟨?_, ?_⟩
+      · rintro β ⟨xs', sl', a', mid, b, β₁, β₂, hv', hx, hm, h1, h2, rfl⟩
+        simp only [Option.some.injEq, Prod.mk.injEq] at hv'
+        obtain ⟨rfl, rfl⟩ := hv'
+        have := hm trivial; subst this
+        rw [DeclAll_nil_iff] at h2
+        obtain ⟨rfl, rfl⟩ := h2
+        simp only [List.append_nil] at hx; subst hx
+        simpa using sp.1 β₁ h1
+      · intro ρ' h
+        obtain ⟨β, hd, rfl⟩ := sp.2 ρ' h
+        exact ⟨β, ⟨xs, sl, xs, [], [], β, [], rfl, by simp, fun _ => rfl, hd, by simp [DeclAll], by simp⟩, rfl⟩
+    · have hb : (xs.length == pre.length) = false := by simpa using hl
+      simp only [hb]
+      refine ⟨?_, by simp⟩
+      rintro β ⟨xs', sl', a', mid, b, β₁, β₂, hv', hx, hm, h1, h2, rfl⟩
+      simp only [Option.some.injEq, Prod.mk.injEq] at hv'
+      obtain ⟨rfl, rfl⟩ := hv'
+      have := hm trivial; subst this
+      rw [DeclAll_nil_iff] at h2
+      obtain ⟨rfl, rfl⟩ := h2
+      simp only [List.append_nil] at hx; subst hx
+      exact absurd (DeclAll_length _ _ _ h1) hl
+
+@[simp] theorem fin_false_true (ρ : Env) : fin false true ρ = .done ρ := by simp [fin]
+
+theorem specN_trailing (F : FloatOps) (pre : List Pat) (r : Option Name) (hs : SpecL F pre)
+    (hns : noSeqL pre = true) : SpecN F (.seq pre (some r) []) := by
+  intro a ρ v hr hnr
+  rw [mPat_trailing F false true pre r a ρ (.tmp v) (hr.container ρ), mPats_false_eq F pre _ _ _ hns]
+  simp only [Src.rd, Decl]
+  cases hv : view v with
+  | none => simp [sizeCheck, view_none_size hv hnr]
+  | some w =>
+    obtain ⟨xs, sl⟩ := w
+    simp only [sizeCheck, view_size hv, if_true, Nat.add_sub_cancel]
+    by_cases hl : pre.length ≤ xs.length
+    · have hd : decide (pre.length ≤ xs.length) = true := by simpa using hl
+      simp only [hd]
+      have hlen : (xs.take pre.length).length = pre.length := by simp; omega
+      have hidx : ∀ j (h : j < (xs.take pre.length).length),
+          tempIndex v ((0 : Int) + (j : Int)) = .ok (xs.take pre.length)[j] := by
+        intro j h
+        have hj : j < xs.length := by simp at h; omega
+        simpa [List.getElem_take] using view_index hv j hj
+      have sp := hs v 0 false ρ (xs.take pre.length) hlen hidx (noRangeL_take _ _ (view_noRange hv hnr))
+      have hsl := view_sliceFrom hv pre.length hl
+      refine ⟨?_, ?_⟩
+      · rintro β ⟨xs', sl', a', mid, b, β₁, β₂, hv', hx, _, h1, h2, rfl⟩
+        simp only [Option.some.injEq, Prod.mk.injEq] at hv'
+        obtain ⟨rfl, rfl⟩ := hv'
+        rw [DeclAll_nil_iff] at h2
+        obtain ⟨rfl, rfl⟩ := h2
+        have ha := DeclAll_length _ _ _ h1
+        simp only [List.append_nil] at hx
+        have hta : xs.take pre.length = a' := by rw [hx, ← ha]; simp
+        have hlen2 : a'.length + mid.length = xs.length := by rw [hx]; simp
+        rw [hta] at sp
+        rw [sp.1 β₁ h1]
+        cases r with
+        | none => simp
+        | some x => simp [hsl, apply_append, ha, ← hlen2]
+      · intro ρ' h
+        cases hm : mPats F true pre (.tmp v) 0 false ρ with
+        | ok ρ1 =>
+          rw [hm] at h
+          obtain ⟨β₁, h1, rfl⟩ := sp.2.1 ρ1 hm
+          have hsplit : xs = xs.take pre.length ++ xs.drop pre.length ++ [] := by simp
+          have hdl : (xs.drop pre.length).length = xs.length - pre.length := by simp
+          cases r with
+          | none =>
+            simp at h; subst h
+            exact ⟨β₁, ⟨xs, sl, xs.take pre.length, xs.drop pre.length, [], β₁, [], rfl, hsplit,
+              by simp, h1, by simp [DeclAll], by simp⟩, rfl⟩
+          | some x =>
+            simp [hsl] at h; subst h
+            refine ⟨β₁ ++ [(x, sl pre.length xs.length)], ⟨xs, sl, xs.take pre.length, xs.drop pre.length, [], β₁, [],
+              rfl, hsplit, by simp, h1, by simp [DeclAll], ?_⟩, by simp [apply_append]⟩
+            have : pre.length + (xs.length - pre.length) = xs.length := by omega
+            simp [hlen, hdl, this]
+        | done ρ1 => exact absurd hm (sp.2.2 _)
+        | fail ρ1 => rw [hm] at h; simp at h
+        | err e => rw [hm] at h; simp at h
+    · have hd : decide (pre.length ≤ xs.length) = false := by simpa using hl
+      simp only [hd]
+      refine ⟨?_, by simp⟩
+      rintro β ⟨xs', sl', a', mid, b, β₁, β₂, hv', hx, _, h1, _, rfl⟩
+      simp only [Option.some.injEq, Prod.mk.injEq] at hv'
+      obtain ⟨rfl, rfl⟩ := hv'
+      have ha := DeclAll_length _ _ _ h1
+      have : a'.length ≤ xs.length := by rw [hx]; simp
+      omega
+
+theorem specN_leading (F : FloatOps) (post : List Pat) (r : Option Name) (hpost : post ≠ [])
+    (hs : SpecNL F post) : SpecN F (.seq [] (some r) post) := by
+  intro a ρ v hr hnr
+  rw [mPat_leading F false true post r a ρ (.tmp v) hpost (hr.container ρ)]
+  simp only [Src.rd, Decl]
+  have hq : 0 < post.length := by cases post <;> simp_all
+  cases hv : view v with
+  | none => simp [sizeCheck, view_none_size hv hnr]
+  | some w =>
+    obtain ⟨xs, sl⟩ := w
+    simp only [sizeCheck, view_size hv, if_true, Nat.add_sub_cancel_left]
+    by_cases hl : post.length ≤ xs.length
+    · have hd : decide (post.length ≤ xs.length) = true := by simpa using hl
+      simp only [hd]
+      have hlen : (xs.drop (xs.length - post.length)).length = post.length := by simp; omega
+      have hidx : ∀ j (h : j < (xs.drop (xs.length - post.length)).length),
+          tempIndex v (-(post.length : Int) + (j : Int)) = .ok (xs.drop (xs.length - post.length))[j] := by
+        intro j h
+        have hj : j < post.length := by omega
+        have e1 : -(post.length : Int) + (j : Int) = -((post.length - j : Nat) : Int) := by omega
+        rw [e1, view_index_neg hv (post.length - j) (by omega) (by omega)]
+        simp only [List.getElem_drop]
+        congr 2; omega
+      have hsl := view_sliceTo hv post.length hq hl
+      have key : ∀ ρ1 : Env, _ := fun ρ1 =>
+        hs v (-(post.length : Int)) ρ1 (xs.drop (xs.length - post.length)) hlen hidx
+          (noRangeL_drop _ _ (view_noRange hv hnr))
+      refine ⟨?_, ?_⟩
+      · rintro β ⟨xs', sl', a', mid, b, β₁, β₂, hv', hx, _, h1, h2, rfl⟩
+        simp only [Option.some.injEq, Prod.mk.injEq] at hv'
+        obtain ⟨rfl, rfl⟩ := hv'
+        rw [DeclAll_nil_iff] at h1
+        obtain ⟨rfl, rfl⟩ := h1
+        have hb := DeclAll_length _ _ _ h2
+        simp only [List.nil_append] at hx
+        have hml : mid.length = xs.length - post.length := by rw [hx]; simp; omega
+        have hdb : xs.drop (xs.length - post.length) = b := by rw [← hml, hx]; simp
+        cases r with
+        | none =>
+          simp only
+          have sp := key ρ
+          rw [hdb] at sp
+          simpa using sp.1 β₂ h2
+        | some x =>
+          simp only [hsl, Except.map]
+          have sp := key (ρ.set x (sl 0 (xs.length - post.length)))
+          rw [hdb] at sp
+          rw [sp.1 β₂ h2]
+          simp [Env.apply, hml]
+      · intro ρ' h
+        have hsplit : xs = [] ++ xs.take (xs.length - post.length) ++ xs.drop (xs.length - post.length) := by simp
+        have htl : (xs.take (xs.length - post.length)).length = xs.length - post.length := by simp
+        cases r with
+        | none =>
+          simp only at h
+          obtain ⟨β₂, h2, rfl⟩ := (key ρ).2 ρ' h
+          exact ⟨β₂, ⟨xs, sl, [], xs.take (xs.length - post.length), xs.drop (xs.length - post.length), [], β₂,
+            rfl, hsplit, by simp, by simp [DeclAll], h2, by simp⟩, rfl⟩
+        | some x =>
+          simp only [hsl, Except.map] at h
+          obtain ⟨β₂, h2, rfl⟩ := (key _).2 ρ' h
+          refine ⟨(x, sl 0 (xs.length - post.length)) :: β₂, ⟨xs, sl, [], xs.take (xs.length - post.length),
+            xs.drop (xs.length - post.length), [], β₂, rfl, hsplit, by simp, by simp [DeclAll], h2, ?_⟩, rfl⟩
+          simp [htl]
+    · have hd : decide (post.length ≤ xs.length) = false := by simpa using hl
+      simp only [hd]
+      refine ⟨?_, by simp⟩
+      rintro β ⟨xs', sl', a', mid, b, β₁, β₂, hv', hx, _, _, h2, rfl⟩
+      simp only [Option.some.injEq, Prod.mk.injEq] at hv'
+      obtain ⟨rfl, rfl⟩ := hv'
+      have hb := DeclAll_length _ _ _ h2
+      have : b.length ≤ xs.length := by rw [hx]; simp; omega
+      omega
+
+mutual
+theorem specN_pat (F : FloatOps) : ∀ (p : Pat), wf p = true → earlyFree p = true → SpecN F p
+  | .lit l, _, _ => specN_lit F l
+  | .id x ty, _, _ => specN_id F x ty
+  | .wild ty, _, _ => specN_wild F ty
+  | .map es ty, _, _ => specN_map F es ty
+  | .seq pre rest post, hw, he => by
+    have hw' := hw
+    simp only [wf, Bool.and_eq_true, Bool.or_eq_true, decide_eq_true_eq, List.isEmpty_iff] at hw'
+    obtain ⟨⟨⟨hshape, hn⟩, hwpre⟩, hwpost⟩ := hw'
+    cases post with
+    | nil =>
+      simp only [earlyFree, List.isEmpty_nil, if_true] at he
+      cases rest with
+      | none =>
+        have hne : pre ≠ [] := by intro h; subst h; simp [restCount] at hn
+        exact specN_exact F pre hne (specN_pats F pre hwpre (by simpa using he) hne)
+      | some r =>
+        exact specN_trailing F pre r (spec_pats F pre hwpre)
+          (earlyFreeL_false_noSeq pre hwpre (by simpa using he))
+    | cons q qs =>
+      simp only [earlyFree, List.isEmpty_cons, Bool.false_eq_true, if_false, Bool.and_eq_true,
+        List.isEmpty_iff] at he
+      rcases hshape with h | ⟨rfl, hr⟩
+      · simp at h
+      · cases rest with
+        | none => simp at hr
+        | some r => exact specN_leading F (q :: qs) r (by simp) (specN_pats F (q :: qs) hwpost he.2 (by simp))
+theorem specN_pats (F : FloatOps) : ∀ (ps : List Pat), wfL ps = true → earlyFreeL ps true = true →
+    ps ≠ [] → SpecNL F ps
+  | [], _, _, h => absurd rfl h
+  | [p], hw, he, _ => by
+    simp only [wfL, Bool.and_eq_true] at hw
+    simp only [earlyFreeL, Bool.true_or, Bool.and_true] at he
+    exact specNL_single F p (specN_pat F p hw.1 he)
+  | p :: q :: ps, hw, he, _ => by
+    simp only [wfL, Bool.and_eq_true] at hw
+    simp only [earlyFreeL, Bool.and_eq_true, Bool.not_eq_true'] at he
+    exact specNL_cons F p q ps (wf_notSeq p hw.1 he.1.2) (spec_pat F p hw.1)
+      (specN_pats F (q :: ps) (by simp [wfL, hw.2]) he.2 (by simp))
+end
+
+/-! ### frame: whatever a pattern does, it only writes its own variables -/
+
+/-- `ρ'` agrees with `ρ` outside `xs` -/
+def Agree (xs : List Name) (ρ ρ' : Env) : Prop := ∀ y, y ∉ xs → ρ' y = ρ y
+
+theorem Agree.refl (xs : List Name) (ρ : Env) : Agree xs ρ ρ := fun _ _ => rfl
+
+theorem Agree.set {xs : List Name} {ρ ρ' : Env} (h : Agree xs ρ ρ') (x : Name) (v : Val) (hx : x ∈ xs) :
+    Agree xs ρ (ρ'.set x v) := by
+  intro y hy
+  have : y ≠ x := fun e => hy (e ▸ hx)
+  simp [Env.set, this, h y hy]
+
+theorem Agree.mono {xs ys : List Name} {ρ ρ' : Env} (h : Agree xs ρ ρ') (hs : ∀ x, x ∈ xs → x ∈ ys) :
+    Agree ys ρ ρ' := fun y hy => h y (fun hx => hy (hs y hx))
+
+theorem Agree.trans {xs : List Name} {ρ ρ₁ ρ₂ : Env} (h1 : Agree xs ρ ρ₁) (h2 : Agree xs ρ₁ ρ₂) :
+    Agree xs ρ ρ₂ := fun y hy => (h2 y hy).trans (h1 y hy)
+
+/-- every register file a result carries agrees with `ρ` outside `xs` -/
+def Within (xs : List Name) (ρ : Env) : R → Prop
+  | .ok ρ' => Agree xs ρ ρ'
+  | .done ρ' => Agree xs ρ ρ'
+  | .fail ρ' => Agree xs ρ ρ'
+  | .err _ => True
+
+theorem Within.mono {xs ys : List Name} {ρ : Env} {r : R} (h : Within xs ρ r)
+    (hs : ∀ x, x ∈ xs → x ∈ ys) : Within ys ρ r := by
+  cases r <;> simp only [Within] at * <;> first | exact h.mono hs | trivial
+
+theorem Within.trans {xs : List Name} {ρ ρ₁ : Env} {r : R} (h1 : Agree xs ρ ρ₁) (h2 : Within xs ρ₁ r) :
+    Within xs ρ r := by
+  cases r <;> simp only [Within] at * <;> first | exact h1.trans h2 | trivial
+
+theorem within_fin (xs : List Name) (ρ ρ' : Env) (la il : Bool) (h : Agree xs ρ ρ') :
+    Within xs ρ (fin la il ρ') := by
+  unfold fin; split <;> exact h
+
+theorem frame_ents : ∀ (es : List Ent) (s : Src) (ρ : Env), Within (entVars es) ρ (mEnts es s ρ)
+  | [], _, ρ => by simp [mEnts, Within, Agree.refl]
+  | e :: es, s, ρ => by
+    simp only [mEnts]
+    split
+    · trivial
+    · exact Agree.refl _ _
+    · rename_i v _
+      have hstep : Agree (entVars (e :: es)) ρ (match e.bind with | some x => ρ.set x v | none => ρ) := by
+        cases hb : e.bind with
+        | none => exact Agree.refl _ _
+        | some x => exact (Agree.refl _ ρ).set x v (by simp [entVars, hb])
+      split
+      · exact hstep
+      · exact Within.trans hstep ((frame_ents es s _).mono (by intro x hx; simp [entVars, hx]))
+
+mutual
+theorem frame_pat (F : FloatOps) : ∀ (p : Pat) (la il : Bool) (a : Acc) (ρ : Env),
+    Within (patVars p) ρ (mPat F la p il a ρ)
+  | .lit l, la, il, a, ρ => by
+    simp only [mPat]
+    split
+    · trivial
+    · split
+      · exact within_fin _ _ _ _ _ (Agree.refl _ _)
+      · split <;> exact Agree.refl _ _
+  | .id x ty, la, il, a, ρ => by
+    simp only [mPat]
+    split
+    · trivial
+    · have h : Agree (patVars (.id x ty)) ρ (ρ.set x ‹Val›) := (Agree.refl _ ρ).set x _ (by simp [patVars])
+      split
+      · exact h
+      · exact within_fin _ _ _ _ _ h
+  | .wild ty, la, il, a, ρ => by
+    simp only [mPat]
+    split
+    · exact within_fin _ _ _ _ _ (Agree.refl _ _)
+    · split
+      · trivial
+      · split
+        · exact within_fin _ _ _ _ _ (Agree.refl _ _)
+        · exact Agree.refl _ _
+  | .map es ty, la, il, a, ρ => by
+    simp only [mPat]
+    split
+    · trivial
+    · rename_i s _
+      split
+      · exact Agree.refl _ _
+      · have h := frame_ents es s ρ
+        simp only [patVars]
+        split
+        · rename_i ρ1 hr
+          rw [hr] at h
+          exact within_fin _ _ _ _ _ h
+        · exact h
+  | .seq pre rest post, la, il, a, ρ => by
+    have hpre : ∀ x, x ∈ patsVars pre → x ∈ patVars (.seq pre rest post) := by
+      intro x hx; simp [patVars, hx]
+    have hpost : ∀ x, x ∈ patsVars post → x ∈ patVars (.seq pre rest post) := by
+      intro x hx; simp [patVars, hx]
+    cases rest with
+    | none =>
+      simp only [mPat]
+      split
+      · trivial
+      · rename_i s _
+        split
+        · trivial
+        · split
+          · trivial
+          · exact Agree.refl _ _
+          · exact (frame_pats F pre la s 0 true ρ).mono hpre
+    | some r =>
+      simp only [mPat]
+      split
+      · trivial
+      · rename_i s _
+        split
+        · trivial
+        · split
+          · trivial
+          · exact Agree.refl _ _
+          · split
+            · have h := (frame_pats F pre la s 0 false ρ).mono hpre
+              split
+              · rename_i ρ1 hr
+                rw [hr] at h
+                cases r with
+                | none => exact within_fin _ _ _ _ _ h
+                | some x =>
+                  simp only
+                  split
+                  · trivial
+                  · exact within_fin _ _ _ _ _ (Agree.set h x _ (by simp [patVars]))
+              · exact h
+            · split
+              · trivial
+              · rename_i ρ1 hρ1
+                have h1 : Agree (patVars (.seq pre (some r) post)) ρ ρ1 := by
+                  cases r with
+                  | none => simp only at hρ1; cases hρ1; exact Agree.refl _ _
+                  | some x =>
+                    simp only at hρ1
+                    cases hs : sliceTo (s.rd ρ) (-(post.length : Int)) with
+                    | error e => rw [hs] at hρ1; cases hρ1
+                    | ok w =>
+                      rw [hs] at hρ1
+                      simp only [Except.map] at hρ1
+                      cases hρ1
+                      exact (Agree.refl _ ρ).set x w (by simp [patVars])
+                exact Within.trans h1 ((frame_pats F post la s _ true ρ1).mono hpost)
+theorem frame_pats (F : FloatOps) : ∀ (ps : List Pat) (la : Bool) (s : Src) (i : Int) (lf : Bool) (ρ : Env),
+    Within (patsVars ps) ρ (mPats F la ps s i lf ρ)
+  | [], _, _, _, _, ρ => by simp [mPats, Within, Agree.refl]
+  | p :: ps, la, s, i, lf, ρ => by
+    have h := (frame_pat F p la (lf && ps.isEmpty) (.elem s i) ρ).mono
+      (ys := patsVars (p :: ps)) (by intro x hx; simp [patsVars, hx])
+    simp only [mPats]
+    split
+    · rename_i ρ1 hr
+      rw [hr] at h
+      exact Within.trans h ((frame_pats F ps la s (i + 1) lf ρ1).mono (by intro x hx; simp [patsVars, hx]))
+    · exact h
+end
+
 end Match
 end KotoVerif
